@@ -17,12 +17,20 @@ Bad(ev) == LET w == WPof(ev.cv)
                rin == RIn(ev.cv, ev.hw) rout == ROut(ev.cv, ev.hw) IN
            {k \in 1..Len(ev.samples) : LET s == ev.samples[k] c == Class(w, lo, hi, <<s[1], s[2]>>, rin, rout) IN
                                         (c = 1 /\ s[3] = 0) \/ (c = 0 /\ s[3] = 1)}
+\* diagnosis: the uncovered samples that stay "in" when the covering radius is reduced by 15 % of the half width (arcs
+\* only: the library offsets an ellipse by an ellipse with radii rx -+ w/2, which is not its parallel curve)
+Shallow(c) == IF c.type = "arc" THEN 3 * QA ELSE 0
+Deep(ev) == LET w == WPof(ev.cv)
+                lo == [j \in 1..(Len(w) - 1) |-> ISqrtLo(Len2(w[j], w[j + 1]))]
+                hi == [j \in 1..(Len(w) - 1) |-> ISqrtHi(Len2(w[j], w[j + 1]))]
+                rin == RIn(ev.cv, ev.hw) - Shallow(ev.cv) rout == ROut(ev.cv, ev.hw) IN
+            Cardinality({k \in 1..Len(ev.samples) : ev.samples[k][3] = 0 /\ Class(w, lo, hi, <<ev.samples[k][1], ev.samples[k][2]>>, rin, rout) = 1})
 TInit == e \in 1..Len(Trace) /\ judged = FALSE /\ cv = 0 /\ done = TRUE
 Judge == /\ ~judged /\ judged' = TRUE /\ UNCHANGED <<e, cv, done>>
          /\ LET ev == Trace[e] b == Bad(ev) IN
             b # {} => LET k == CHOOSE x \in b : \A y \in b : x <= y IN
                       PrintT("@@" \o ToJson([l |-> e, n |-> Cardinality(b), k |-> k, s |-> ev.samples[k],
-                                             uncovered |-> Cardinality({x \in b : ev.samples[x][3] = 0}),
+                                             uncovered |-> Cardinality({x \in b : ev.samples[x][3] = 0}), deep |-> Deep(ev),
                                              rin |-> RIn(ev.cv, ev.hw), rout |-> ROut(ev.cv, ev.hw), q |-> QOf(ev.cv)]))
 TSpec == TInit /\ [][Judge]_tvars
 =============================================================================
